@@ -687,6 +687,32 @@ def expand_template(tpl_text: str, repo_root: str, cache: Optional[dict] = None)
                 out_lines.append("")
                 line_map.append((first_line, len(out_lines), f"{rel}::{it.key}"))
             continue
+        if ipath.endswith("/*"):
+            # every child of an impl/trait/mod block except the names in skip=…, re-wrapped in the block's own header
+            parent = src.find(ipath[:-2])
+            if not parent.children:
+                raise LostAnchor(f"{rel}: `{ipath}` has no children")
+            skip = set(x.strip() for x in opts.get("skip", "").split(",") if x.strip())
+            hdr = src.text[src.toks[parent.head].s:src.toks[parent.body_open].e]
+            first_line = len(out_lines) + 1
+            out_lines.extend(hdr.split("\n"))
+            for it in parent.children:
+                if it.name in skip:
+                    continue
+                out_lines.extend(src.item_text_with_attrs(it).split("\n"))
+                out_lines.append("")
+                info = src.item_info(it)
+                info["file"] = src_rel
+                info["path"] = ipath[:-2] + "/" + it.key
+                info["deviations"] = []
+                info["spliced"] = None
+                infos.append(info)
+            out_lines.append("}")
+            line_map.append((first_line, len(out_lines), f"{rel}::{ipath}"))
+            missing = skip - {c.name for c in parent.children}
+            if missing:
+                raise LostAnchor(f"{rel}: `{ipath}` skip list names unknown items {sorted(missing)}")
+            continue
         it = src.find(ipath)
         mode = opts.get("mode", "fn" if it.kw == "fn" and it.body_open is not None else "item")
         if mode == "fn":
